@@ -13,7 +13,18 @@ for M in "${MUTS[@]}"; do
   git -C /repo worktree add -q --detach "$WT" HEAD || continue
   if ! (cd "$WT" && git apply "/verif/seeded/$M/patch.diff"); then echo "$M: patch does not apply"; git -C /repo worktree remove --force "$WT"; continue; fi
   CAUGHT=""
+  TARGET=$(jq -r .property "/verif/seeded/$M/meta.json")
   for ID in $CHECKS; do
+    # FAST=1: the four slow checks run only against changes aimed at their own property (or at a sibling that
+    # shares their workload); every other cell of the matrix is still computed
+    if [ "${FAST:-0}" = 1 ]; then
+      case "$ID" in
+        C09) case "$TARGET" in C09|C02|C14) ;; *) continue;; esac;;
+        C02) case "$TARGET" in C02|C10|C09) ;; *) continue;; esac;;
+        C14) case "$TARGET" in C14|C13|C11|C15) ;; *) continue;; esac;;
+        C20) case "$TARGET" in C20|C01|C14) ;; *) continue;; esac;;
+      esac
+    fi
     O=$(VERIF_REPO="$WT" VERIF_NOEVIDENCE=1 ./run.sh "$ID" "$TIER" 2>&1); RC=$?
     V=$(echo "$O" | grep -c '^VIOLATION')
     CLS=$(echo "$O" | grep -A1 '^VIOLATION' | grep -o 'class=[a-z0-9-]*' | sort -u | head -3 | tr '\n' ' ')
